@@ -12,6 +12,10 @@ Decided (structural):
         offset returned by the append of the new head set, heads_offset() reads root.heads, and
         LinearStorage::commit_heads reaches Writer::commit on every Ok path.
  R4 K3  commit takes `self` by value (the transaction is consumed).
+ R5 K1+K6 (shared with C06-R7 / C09-R4) a committed head leaves the transaction's tips only when a child of it
+        was accepted: tip removal sits on the accepting path of add_single / add_merge, and a perspective
+        opened for a command that is then refused is un-installed with its parent still a tip - otherwise a
+        later commit writes a head set that no longer covers a committed command.
 Not decided: interleavings beyond this guard; "the graph is the previous graph plus the accepted
 commands" (value-level)."""
 from rules.core import pat
@@ -141,3 +145,5 @@ def run(F, rep, tier):
         cst = lc.field_stores("cached_heads")
         rep.check(bool(cst) and all(lc.dominates(pat.ok_edge(lc, wcs[0])[1], s.bb) for s in cst), "commit_heads|cache-after-durable", "K1 must-pass-through",
                   "cached_heads is replaced only after writer.commit() succeeded", site=lc.site())
+    from rules.props import C06 as _c06
+    _c06.check_install_fill(F, rep)
